@@ -130,47 +130,86 @@ def ob_node_counts(ctx, res):
     wt = ctx.ast.fn(W_, "write_tree")
     wr = ctx.ast.fn(W_, "write_rtreeindex")
 
-    def bs_norm(fn_, e):
+    from ..rules.interp import Interp, NotPure
+
+    def ev_site(fn_, e, v):
         opt = [nm for nm, ty in fn_.params if "BBIWriteOptions" in ty][0]
-        t_ = _sqo(upn(fn_, e)).replace(opt + ".", "OPT.")
-        return re.sub(r"asusize$|^u64::from", "", t_)
-    uses = {}
-    ch = [c for c in walk_no_nested_fn(gi.body) if c.k == "mcall" and c["method"] == "chunks" and len(c["args"]) == 1]
-    uses["get_rtreeindex (chunk size)"] = sorted({bs_norm(gi, c["args"][0]) for c in ch})
-    fulls = []
+
+        def binop(op, a_, b_):
+            if isinstance(a_, int) and isinstance(b_, int) and not isinstance(a_, bool) and op in ("+", "-", "*"):
+                return a_ + b_ if op == "+" else (a_ - b_ if op == "-" else a_ * b_)
+            raise NotPure("arithmetic " + op)
+        it = Interp(ctx.ast, W_, extern={"None": None, "binop": binop})
+        from ..astq import binding_before
+
+        class _LetEnv(dict):
+            """locals of fn_ bound by an immutable `let` are evaluated on demand from their initialiser"""
+            def __contains__(self, k):
+                return dict.__contains__(self, k) or self._let(k) is not None
+
+            def _let(self, k):
+                b_ = binding_before(fn_, k, strip(e)) if re.fullmatch(r"\w+", k) else None
+                return b_[1] if b_ is not None and b_[0] == "let" and b_[-1] == () and b_[1].get("init") is not None and not b_[1]["pat"].get("mut") else None
+
+            def __missing__(self, k):
+                l_ = self._let(k)
+                if l_ is None:
+                    raise KeyError(k)
+                val = it.ev(l_["init"], self, 0)
+                self[k] = val
+                return val
+        env = _LetEnv({opt: {"__ref": True, "block_size": v, "items_per_slot": 1024}})
+        return it.ev(_tnorm_site(fn_, e), env, 0)
+
+    def _tnorm_site(fn_, e):
+        from ..astq import _tnorm
+        return _tnorm(fn_, e)       # hoisted temporaries (`let block_size = u64::from(rtree_block_size(options))`) inlined; helpers with statements are left as calls
+    sites = []
+    for c in walk_no_nested_fn(gi.body):
+        if c.k == "mcall" and c["method"] == "chunks" and len(c["args"]) == 1:
+            sites.append(("get_rtreeindex (chunk size)", gi, c["args"][0], lambda cs: cs))
     for n in walk_no_nested_fn(wt.body):
-        if n.k == "let" and n.get("init") is not None:
-            v = _sqo(upn(wt, n["init"]))
-            m_ = re.search(r"u64::from(.+?block_size.+?)(?:\+NODEHEADER_SIZE|\*(?:NON_)?LEAFNODE_SIZE|$)", v)
-            if "NODEHEADER_SIZE" in v and "LEAFNODE_SIZE" in v and m_:
-                opt = [nm for nm, ty in wt.params if "BBIWriteOptions" in ty][0]
-                fulls.append(m_.group(1).replace(opt + ".", "OPT."))
-    uses["write_tree (full node sizes)"] = sorted(set(fulls))
-    hd = [c for c in calls(wr.body, method="write_u32") if "block_size" in _sqo(upn(wr, c["args"][0]))]
-    uses["write_rtreeindex (header blockSize)"] = sorted({bs_norm(wr, c["args"][0]) for c in hd})
-    capped = {"OPT.block_size.clamp2,u16::MAXasu32", "OPT.block_size.max2.minu16::MAXasu32", "OPT.block_size.minu16::MAXasu32.max2", "2.maxOPT.block_size.minu16::MAXasu32"}
-    allv = set(v for vs in uses.values() for v in vs)
-    if any(not vs for vs in uses.values()):
-        res.undecided("nodeCounts/rtree-uses", gi, "could not locate the block size at every use (chunking, full node sizes, header): %s" % uses)
-    elif len(allv) != 1:
-        res.fail("nodeCounts/rtree-uses", gi, "chunking, the full node sizes and the header's blockSize must use one and the same block size; found %s" % uses)
+        if n.k == "let" and n.get("init") is not None and "NODEHEADER_SIZE" in upn(wt, n["init"]) and "LEAFNODE_SIZE" in upn(wt, n["init"]):
+            kind = "NON_LEAFNODE_SIZE" in upn(wt, n["init"])
+            sites.append(("write_tree (full %s node size)" % ("non-leaf" if kind else "leaf"), wt, n["init"], (lambda cs: 4 + 24 * cs) if kind else (lambda cs: 4 + 32 * cs)))
+    for c in calls(wr.body, method="write_u32"):
+        if "block_size" in upn(wr, c["args"][0]):
+            sites.append(("write_rtreeindex (header blockSize)", wr, c["args"][0], lambda cs: cs))
+    kinds = {s_[0].split(" (")[0] for s_ in sites}
+    if kinds != {"get_rtreeindex", "write_tree", "write_rtreeindex"} or len(sites) < 4:
+        res.undecided("nodeCounts/rtree-uses", gi, "could not locate the block size at every use (chunking, both full node sizes, header): found %s" % sorted(s_[0] for s_ in sites))
     else:
-        v = list(allv)[0]
-        if v in capped:
-            res.ok(gi, "R-tree: chunk size, full node sizes and header blockSize are all `block_size` clamped to [2, 65535]")
-        elif v == "OPT.block_size" or ("max2" not in v and "clamp2" not in v and "min" not in v):
-            res.fail("nodeCounts/rtree-unbounded", gi,
-                     "the number of children of an index node is written as a u16 (`len() as u16`) but nodes are cut with the unbounded u32 option block_size: with block_size > 65535 and "
-                     "that many sections the count wraps (65536 one-entry blocks, block_size 65536: every query returns nothing); the block size must be capped at u16::MAX "
-                     "consistently for chunking, node sizes and the header")
-        elif "clamp2" not in v and "max2" not in v:
-            res.fail("nodeCounts/rtree-lower-bound", gi,
-                     "the block size has no lower bound: with block_size 1 every level of the index has as many nodes as the one below it, so get_rtreeindex never reaches a single root "
-                     "(it loops and allocates without bound); with 0, chunks(0) panics")
-        elif "u16::MAX" not in v and "65535" not in v:
-            res.fail("nodeCounts/rtree-helper", gi, "the block size must be clamped to [2, u16::MAX]; got %s" % v)
+        verdict = None
+        for v in (0, 1, 2, 3, 256, 65535, 65536, 200000):
+            cs = min(max(v, 2), 65535)
+            for what, fn_, e, ref in sites:
+                try:
+                    got = ev_site(fn_, e, v)
+                except NotPure as x:
+                    verdict = ("undecided", what, str(x))
+                    break
+                if got != ref(cs):
+                    verdict = ("differs", what, v, got, ref(cs), fn_, e)
+                    break
+            if verdict:
+                break
+        if verdict is None:
+            res.ok(gi, "R-tree: chunk size, both full node sizes and the header blockSize evaluated for block_size in {0,1,2,3,256,65535,65536,200000}: all use block_size clamped to [2, 65535]")
+        elif verdict[0] == "undecided":
+            res.undecided("nodeCounts/rtree-uses", gi, "%s: block size expression not evaluated (%s)" % (verdict[1], verdict[2]))
         else:
-            res.undecided("nodeCounts/rtree-bound-form", gi, "block size expression `%s` is bounded, but not in a form the rule recognises" % v)
+            _, what, v, got, want, fn_, e = verdict
+            if v > 65535:
+                res.fail("nodeCounts/rtree-unbounded", e,
+                         "%s uses %s for options.block_size = %d (required %s): the number of children of an index node is written as a u16 (`len() as u16`); with block_size > 65535 and "
+                         "that many sections the count wraps (65536 one-entry blocks, block_size 65536: every query returns nothing); the block size must be capped at u16::MAX "
+                         "consistently for chunking, node sizes and the header" % (what, got, v, want))
+            elif v < 2:
+                res.fail("nodeCounts/rtree-lower-bound", e,
+                         "%s uses %s for options.block_size = %d (required %s): with block_size 1 every level of the index has as many nodes as the one below it, so get_rtreeindex never "
+                         "reaches a single root (it loops and allocates without bound); with 0, chunks(0) panics" % (what, got, v, want))
+            else:
+                res.fail("nodeCounts/rtree-uses", e, "%s uses %s for options.block_size = %d, required %s: chunking, the full node sizes and the header's blockSize must use one and the same block size" % (what, got, v, want))
     # the counts written: `X.len() as u16` where X is a chunk of the (capped) chunking, in write_tree
     cnt = [c for c in calls(wt.body, method="write_u16")]
     okc = [c for c in cnt if re.fullmatch(r"(sections|children)\.len\(\) as u16", up(strip(c["args"][0])))]
